@@ -54,6 +54,9 @@ type worker struct {
 	n            int
 	opts         map[string]string
 	prevLine     []byte // the case processed just before this one in the same process (call histories matter)
+	lastDoc      interface{}
+	lastSnap     string
+	lastText     string
 }
 
 func (w *worker) count(k string, n int) { w.res.Counters[k] += n }
